@@ -23,6 +23,7 @@ Items(stim) == [i \in 1..Len(stim.items) |->
                   IF it.k = "pend" THEN [k |-> "pend"]
                   ELSE IF it.k = "err" THEN [k |-> "err", code |-> it.code]
                   ELSE IF it.k = "encfail" THEN [k |-> "encfail"]
+                  ELSE IF Has(it, "wl") /\ stim.enc # "identity" /\ ~stim.override THEN [k |-> "msg", ser |-> SerOfItem(it, stim.codec), wl |-> it.wl]
                   ELSE [k |-> "msg", ser |-> SerOfItem(it, stim.codec)]]
 Compressed(stim) == stim.enc # "identity" /\ ~stim.override
 EncCfg(stim) == [role |-> stim.role, limit |-> Lim(stim.limit_enc), exact |-> ~Compressed(stim)]
@@ -57,8 +58,11 @@ HintsAligned(bytes, hints) ==
   /\ \A i \in 1..Len(fr) : hints[i].off = fr[i].off /\ hints[i].flag = fr[i].flag /\ hints[i].len = fr[i].len
 
 DecEncOf(stim) == IF stim.kind = "dec" THEN stim.dec_enc ELSE stim.enc
-TailOf(stim, tail) == IF tail = "none" THEN (IF stim.role = "server" THEN "none_resp" ELSE "none_req")
-                      ELSE tail
+\* a transport error that maps to CANCELLED on a request stream (the decoder plays the opposite role of stim.role) is what a
+\* client going away looks like: tonic ends such a stream quietly, and the statement does not say otherwise - left unconstrained
+TailOf(stim, tail, code) == IF tail = "none" THEN (IF stim.role = "server" THEN "none_resp" ELSE "none_req")
+                            ELSE IF tail = "body_err" /\ code = 1 /\ stim.role = "client" THEN "body_cancel_req"
+                            ELSE tail
 
 Fresh == [stim |-> [kind |-> "none"], enc |-> EncInit, encDone |-> FALSE, wire |-> <<>>, hints |-> <<>>,
           view |-> <<>>, tail |-> "none_req", tailCode |-> -1, dec |-> DecInit, haveBody |-> FALSE, hang |-> FALSE]
@@ -94,6 +98,8 @@ WireClauses(stim, emitted, bytes, hints) ==
                       IF comp THEN f.flag = 1 /\ DecompOf(HintFor(hints, f.off), stim.enc) = [ok |-> TRUE, v |-> good[i].ser]
                       ELSE f.flag = 0 /\ f.payload = good[i].ser
   IN << <<"RecorderHonest", stim.kind = "dec" \/ bytes = emitted>>,
+        \* C06: a message over the encoding limit is not sent - no frame on the wire is longer than the limit
+        <<"NothingOverEncodingLimitOnWire", stim.kind = "dec" \/ \A i \in 1..Len(p.frames) : p.frames[i].len <= Lim(stim.limit_enc)>>,
         <<"HintsAligned", HintsAligned(bytes, hints)>>,
         <<"BodyIsWholeFrames", stim.kind = "dec" \/ p.why = "clean">>,
         <<"FramesAreTheMessages", stim.kind = "dec" \/ (p.why = "clean" =>
@@ -102,10 +108,10 @@ WireEv == /\ Live("wire") /\ UNCHANGED stats
           /\ Judge(WireClauses(s.stim, s.enc.emitted, E.bytes, E.frames), [s EXCEPT !.wire = E.bytes, !.hints = E.frames])
 
 BodyEv == /\ Live("body")
-          /\ LET tail == TailOf(s.stim, E.tail)
+          /\ LET tail == TailOf(s.stim, E.tail, E.tail_code)
                  v == ViewOf(E.delivered, s.hints, DecEncOf(s.stim), Lim(s.stim.limit_dec), s.stim.codec)
                  \* with an injected body error the delivered prefix may stop inside a frame: that is not the input's fault
-                 v2 == IF tail = "body_err" /\ Bad(v) \in Trunc THEN SubSeq(v, 1, Len(v) - 1) ELSE v
+                 v2 == IF tail \in {"body_err", "body_cancel_req"} /\ Bad(v) \in Trunc THEN SubSeq(v, 1, Len(v) - 1) ELSE v
                  \* chunk boundaries (offsets recorded by the projection, checked for consistency below)
                  bounds == { E.script[i].at : i \in 1..Len(E.script) }
                  atOK == \A i \in 1..(Len(E.script) - 1) : E.script[i].at + E.script[i].n = E.script[i + 1].at
